@@ -1,17 +1,19 @@
 #!/bin/bash
-# Confirms every candidate seeded fault under /tmp/seed/<id>/out/<x>/ in a scratch worktree:
+# Usage: verify_seeds.sh [root=/tmp/seed]
+# Confirms every candidate seeded fault under <root>/<id>/out/<x>/ in a scratch worktree:
 #  builds, passes the pinned suite, demo fails with the patch and passes without it.
 # Writes /tmp/seed/verify.tsv
 set -u
 export GOFLAGS=-mod=mod GOPROXY=off
+ROOT=${1:-/tmp/seed}
 WT=/tmp/sv/wt
 rm -rf /tmp/sv; mkdir -p /tmp/sv
 git -C /repo worktree prune
 git -C /repo worktree add --detach $WT HEAD -q || exit 2
-out=/tmp/seed/verify.tsv
+out=$ROOT/verify.tsv
 : > $out
-for d in /tmp/seed/C*/out/[ab]; do
-  id=$(echo $d | cut -d/ -f4); x=$(basename $d)
+for d in $ROOT/C*/out/[ab]; do
+  id=$(basename $(dirname $(dirname $d))); x=$(basename $d)
   [ -f $d/patch.diff ] || continue
   cd $WT && git checkout -q -- . && git clean -fdq
   demo=$(ls $d/*_test.go 2>/dev/null | head -1)
